@@ -471,8 +471,10 @@ def run_property(pid, modname, tier, seed, level_note, assumptions, bounds, only
         lines.append(f"INCONCLUSIVE property={pid} {i}")
     for b in broken:
         lines.append(f"HARNESS-BROKEN property={pid} {b}")
-    for e in errors:
-        lines.append(f"HARNESS-ERROR property={pid} {e}")
+    for e in errors[:8]:
+        lines.append(f"HARNESS-ERROR property={pid} {e[:600]}")
+    if len(errors) > 8:
+        lines.append(f"HARNESS-ERROR property={pid} ... and {len(errors) - 8} more")
 
     tot = dict(paths=0, queries=0, unsat=0, sat=0, unknown=0, obligations=0, proved=0, solver_s=0.0)
     for ph in per_h.values():
